@@ -24,6 +24,7 @@ func checkC20(c *Ctx) {
 	c20TypeTables(c)
 	c20Purity(c)
 	c20TypeModes(c)
+	c20AccessorNil(c)
 	diagsKeptRule(c, "R7", 20, "hcl", "hclsyntax", "ext/typeexpr")
 	c.NotCovered("equality of the TraverseAbs result and Value; agreement of diagnostics; equivalence of a JSON string and native text")
 }
@@ -761,4 +762,37 @@ func c20TypeModes(c *Ctx) {
 		}
 	}
 	c.Floor("type.modes recursive calls", n, 2, "list/set/map element, object attributes, tuple elements, optional(...)")
+}
+
+// R9 accessor.nil: hcl.ExprList / hcl.ExprMap read a nil result as "this expression is not a static
+// list / map". An implementation therefore returns either the nil constant or a slice that cannot
+// be nil — never one whose nilness depends on the number of elements.
+func c20AccessorNil(c *Ctx) {
+	c.Rule("R9 accessor.nil: every return of an ExprList / ExprMap method in hcl, hclsyntax, json, ext/dynblock yields either the constant nil ('not a list/map') or a structurally non-nil slice (make, a literal, an append to such): an empty tuple or object is still a static list/map, as its Value is an empty tuple/object")
+	e := newNonNilEngine(c.P)
+	n := 0
+	for _, fn := range c.P.pkgFuncs("hcl", "hclsyntax", "json", "ext/dynblock") {
+		if fn.Parent() != nil || fn.Signature.Recv() == nil || (fn.Name() != "ExprList" && fn.Name() != "ExprMap") {
+			continue
+		}
+		c.Fn(FuncName(fn))
+		for _, b := range fn.Blocks {
+			ret, ok := b.Instrs[len(b.Instrs)-1].(*ssa.Return)
+			if !ok || len(ret.Results) != 1 {
+				continue
+			}
+			n++
+			c.Sites++
+			v := ret.Results[0]
+			okv := false
+			if k, isC := v.(*ssa.Const); isC && k.IsNil() {
+				okv = true
+			} else {
+				okv = e.valueNonNil(v, b, map[ssa.Value]bool{}, 0) || !e.nilReach(v, b, map[ssa.Value]bool{}, 0)
+			}
+			c.Check(okv, "accessor.nil", FuncName(fn)+":return["+pathName(v)+"]", ret.Pos(), "nil constant or never nil",
+				"the returned slice is nil exactly when there are no elements: hcl."+fn.Name()+" then reports that an empty list/map constructor is not a static list/map, although its Value is an empty tuple/object")
+		}
+	}
+	c.Floor("accessor.nil returns", n, 6, "ExprList/ExprMap of TupleConsExpr, ObjectConsExpr and the JSON expression")
 }
